@@ -37,6 +37,9 @@ def evalE (v : Valuation) : CExpr Rat → Bool
   | .tracked2 x op y => cmpOp op (v.tracked x) (v.tracked y)
   | .resLevel r op k => vecCmp op (v.levels r) k
   | .ref n => v.named n
+  | .delay _ => true
+  | .andOp a b => evalE v a && evalE v b
+  | .orOp a b => evalE v a || evalE v b
 def evalAll (v : Valuation) : List (CExpr Rat) → Bool
   | [] => true
   | c :: cs => evalE v c && evalAll v cs
@@ -103,7 +106,13 @@ theorem invert_negates (v : Valuation) : (c c' : CExpr Rat) → scalarOnly c = t
   | .inv (.resLevel _ _ _), _, _, h => by simp [invertNorm] at h
   | .inv (.tracked2 _ _ _), _, _, h => by simp [invertNorm] at h
   | .inv (.ref _), _, _, h => by simp [invertNorm] at h
+  | .inv (.delay _), _, _, h => by simp [invertNorm] at h
+  | .inv (.andOp ..), _, _, h => by simp [invertNorm] at h
+  | .inv (.orOp ..), _, _, h => by simp [invertNorm] at h
   | .ref _, _, _, h => by simp [invertNorm] at h
+  | .delay _, _, _, h => by simp [invertNorm] at h
+  | .andOp .., _, _, h => by simp [invertNorm] at h
+  | .orOp .., _, _, h => by simp [invertNorm] at h
   | .after t, c', _, h => by
       simp [invertNorm] at h; subst h
       simp only [evalE]
